@@ -13,6 +13,11 @@ use crate::swarm::TorrentMaps;
 
 pub const BUFFER_SIZE: usize = 8192;
 
+/// Largest value of `protocol.max_response_peers` for which an announce
+/// response with that many IPv6 peers (20 byte header, 18 bytes per peer)
+/// still fits in a buffer of size `BUFFER_SIZE`
+pub const MAX_RESPONSE_PEERS_LIMIT: usize = (BUFFER_SIZE - 20) / 18;
+
 #[derive(Clone, Copy, Debug)]
 pub enum IpVersion {
     V4,
